@@ -143,8 +143,14 @@ func (w *FileWriter) generateImports(info *GenerationInfo) []string {
 
 	for _, field := range info.Fields {
 		// A type argument that names time.Time (gozod.Slice[time.Time](...))
-		// needs the package; gozod.Time() alone does not.
-		if code, err := w.generateFieldSchemaCode(field, info.Name); err == nil && strings.Contains(code, "time.Time") {
+		// needs the package; gozod.Time() alone does not. Only the constructor
+		// is looked at: the text of a rule parameter (default=time.Time on a
+		// string field) is not a reference to the package.
+		typeName := field.TypeName
+		if typeName == "" && field.Type != nil {
+			typeName = field.Type.String()
+		}
+		if strings.Contains(baseConstructor(typeName, info.Name), "time.Time") {
 			imports["time"] = true
 		}
 
